@@ -288,6 +288,45 @@ func (P *Program) registerCSV() {
 		var nilFile *value
 		return tuple{nilFile, in.mkError("open: no such file or directory")}
 	})
+	// os.Stat / os.Lstat over the model file system; the only thing callers learn is existence
+	notExist := func(in *Interp) iface { return in.mkError("stat: no such file or directory") }
+	stat := func(fr *frame, args []value) value {
+		in := fr.in
+		if t, ok := args[0].(*smt.Term); ok {
+			if _, conc := in.C.GoString(t); !conc {
+				// an arbitrary path: no file of the model file system carries a symbolic name unless it was created under it
+				if _, ok := in.fs()[t]; !ok {
+					in.path.noteAssumption("a file named by an arbitrary string does not exist (the model file system holds only the files the harness or the code created)")
+					return tuple{iface{}, notExist(in)}
+				}
+			}
+		}
+		if _, ok := in.fs()[in.fsKey(args[0])]; ok {
+			var cell value = &opaque{kind: "os.FileInfo"}
+			return tuple{iface{t: in.synthType("os.fileStat"), v: &cell}, iface{}}
+		}
+		return tuple{iface{}, notExist(in)}
+	}
+	P.reg("os.Stat", stat)
+	P.reg("os.Lstat", stat)
+	isNotExist := func(fr *frame, args []value) value {
+		e, _ := args[0].(iface)
+		for e.t != nil {
+			ee, ok := e.v.(*engineErr)
+			if !ok {
+				return fr.in.boolv(false)
+			}
+			if m, ok := ee.msg.(string); ok && strings.HasSuffix(m, "no such file or directory") {
+				return fr.in.boolv(true)
+			}
+			if len(ee.cause) == 0 {
+				break
+			}
+			e = ee.cause[0]
+		}
+		return fr.in.boolv(false)
+	}
+	P.reg("os.IsNotExist", isNotExist)
 	P.reg("os.Remove", func(fr *frame, args []value) value {
 		in := fr.in
 		k := in.fsKey(args[0])
